@@ -68,7 +68,31 @@ def c09_ops(rng, held, names, b):
         ('let-name', 'let_n', [u, ','.join(f'{x}={rng.choice(names)}' for x in vs)]),
         ('cube', 'cube', [','.join(f'{x}={rng.randint(0, 1)}' for x in vs)]),
         ('var', 'var', [rng.choice(names)]),
-    ] + _c09_relational(rng, held, names, b)
+    ] + _c09_relational(rng, held, names, b) + _c09_formula(rng, held, names)
+
+
+def _c09_formula(rng, held, names):
+    """`add_expr` of a random formula over the declared names and `@n` references to held nodes."""
+    try:
+        import checks_parse as _cp
+    except ImportError:
+        return []
+
+    def atom():
+        if rng.random() < 0.3:
+            return f'@{rng.choice(held)}'
+        return rng.choice(names)
+
+    def form(d):
+        if d == 0 or rng.random() < 0.25:
+            a = atom()
+            return a if rng.random() < 0.7 else f'~ {a}'
+        op = rng.choice(['/\\', '\\/', '=>', '<=>', '#', '&', '|'])
+        return f'({form(d - 1)} {op} {form(d - 1)})'
+    f = form(rng.randint(2, 4))
+    if rng.random() < 0.3:
+        f = f'\\E {rng.choice(names)}: {f}'
+    return [('add_expr', 'add_expr', [_cp.esc(f)])]
 
 
 def _c09_relational(rng, held, names, b):
